@@ -56,6 +56,11 @@ class VLoop(asyncio.SelectorEventLoop):
             self.run_until_complete(asyncio.sleep(0))
 
     def pending_jobs(self) -> list[Job]:
+        for j in self.jobs:
+            if j.state == "queued" and j.fut.cancelled():
+                j.state = "dropped"      # a queued thread-pool job whose future was cancelled never runs
+            elif j.state == "ran" and j.fut.cancelled():
+                j.state = "delivered"    # its effect has happened, nobody waits for the result
         return [j for j in self.jobs if j.state in ("queued", "ran")]
 
     def run_job(self, job: Job) -> None:
